@@ -51,7 +51,7 @@ APPL = {
     "getrandom": ["I"], "copy_file_range": ["ENOMEM"],
 }
 
-SCENARIOS = ["loop", "basic", "tcp", "tcp_big", "pipe", "pipe_big", "tcp_refused", "tcp_many", "tcp_shed", "connect_fail", "udp",
+SCENARIOS = ["loop", "default_loop", "basic", "tcp", "tcp_big", "pipe", "pipe_big", "tcp_refused", "tcp_many", "tcp_shed", "connect_fail", "udp",
              "fs_sync", "fs_async", "fs_event", "fs_poll", "spawn", "spawn_fail", "spawn_many", "signal", "signal_close",
              "dns", "os", "work", "pool:1", "pool:4", "pool:5", "pool:8", "pool:12", "pool:128", "pairs", "ipc", "sysinfo"]
 QUICK_SKIP_HEAVY = {"tcp_big", "pipe_big"}        # quick: sampled more thinly (hundreds of reads)
@@ -437,6 +437,13 @@ def monitor(scen, plan, kind, ref, out, resolver):
     for k, v, r in devs:
         if not ERRLIKE.match(v) and not errvals:       # after a reported error later values are consequences
             probs.append(("wrong_value", "%s=%s where the fault-free run has %s (not an error code)" % (k, v, r)))
+    if scen == "default_loop":
+        if "BROKEN" in m.get("default_loop_retry", []):
+            probs.append(("acct", "uv_default_loop() failed once and keeps failing after the fault is over"))
+        for k_ in ("timer_fired", "default_loop_close"):
+            want_ = "1" if k_ == "timer_fired" else "0"
+            if any(v_ != want_ for v_ in m.get(k_, [])):
+                probs.append(("loop_not_closable", "after a failed uv_default_loop() the default loop does not work: %s=%s" % (k_, m.get(k_))))
     if scen.startswith("pool:") and "info.workers" in m:
         # the worker table: UV_THREADPOOL_SIZE threads, or the 4 static slots when its allocation failed
         want = int(scen.split(":")[1])
@@ -906,6 +913,30 @@ def main():
     souts = run(["%s %s" % (s, pl) for s, pl, _, _, _ in storm])
     cases += ["%s %s" % (s, pl) for s, pl, _, _, _ in storm]
     outs += souts
+    # the same system-call faults with an allocator whose free() modifies errno: the code that is reported must not change
+    clob_scen = None if thorough else {"fs_sync", "fs_async", "sysinfo", "os", "spawn", "fs_event", "fs_poll", "dns", "pipe", "udp", "ipc"}
+    clob = [(i_, p_) for i_, p_ in enumerate(plans)
+            if ";" not in p_[1] and p_[4] not in ALLOCS and p_[2] not in ("EINTR", "pair") and "!" not in p_[1] and "LIMIT" not in p_[1]
+            and (clob_scen is None or p_[0] in clob_scen)]
+    couts = run(["%s clobber;%s" % (p_[0], p_[1]) for _, p_ in clob])
+    clob_bad = []
+    for (i_, p_), co in zip(clob, couts):
+        plain = outs[i_]
+        if not (co.startswith("EXIT0") and plain.startswith("EXIT0")):
+            if co.split("|")[0] != plain.split("|")[0]:
+                clob_bad.append((p_, "status %s instead of %s" % (co.split("|")[0], plain.split("|")[0]), co))
+            continue
+        m1, m2 = ev_map(parse_out(plain)[1]), ev_map(parse_out(co)[1])
+        for k_, vs_ in m2.items():
+            for j_, v_ in enumerate(vs_):
+                pv = m1.get(k_, [])
+                if v_.split("!")[0] == "EBADF" and (j_ >= len(pv) or pv[j_].split("!")[0] != "EBADF"):
+                    clob_bad.append((p_, "%s=EBADF where the same fault with a well-behaved free() gives %s" % (k_, pv[j_] if j_ < len(pv) else "nothing"), co))
+    for p_, why, co in clob_bad[:3]:
+        chk.violation("errno clobbered by the allocator's free(): %s %s: the injected %s is reported as something else (%s)" %
+                      (p_[0], p_[1], p_[2], why),
+                      {"kind": "monitor", "case": "%s clobber;%s" % (p_[0], p_[1]), "impl": co[:2000]})
+    chk.corr("enumeration again with an errno-clobbering free()", len(clob))
     if os.environ.get("C16_DUMP"):
         with open(os.environ["C16_DUMP"], "w") as f:
             for s_ in SCENARIOS:
